@@ -632,11 +632,13 @@ impl<'a> Elab<'a> {
                         stmts.extend(self.ghost_marker("before", &kl));
                         if self.u.poisonlocks {
                             // `.lock().unwrap()` panics on a poisoned mutex
-                            if !self.ctl {
-                                self.unsupported("lock().unwrap() on a poisonable mutex in a function that cannot unwind", init_expr.span());
+                            if self.ctl {
+                                let drops = self.unwind_drops();
+                                stmts.push(parse_quote!(if #place.is_poisoned() { #(#drops)* return Ctl::Unwind; }));
+                            } else {
+                                // a function that must not panic: the mutex has to be provably unpoisoned here
+                                stmts.push(parse_quote!(if #place.is_poisoned() { vx_panic_(); }));
                             }
-                            let drops = self.unwind_drops();
-                            stmts.push(parse_quote!(if #place.is_poisoned() { #(#drops)* return Ctl::Unwind; }));
                         }
                         stmts.push(parse_quote!(#place.lock_();));
                         stmts.extend(self.lockinv_marker("acq", &field));
